@@ -18,7 +18,7 @@ PROPS["C12"] = dict(
 PROPS["C18"] = dict(
     level="other", claimed=True,
     level_text='get_conjectured_security equals the documented formula, without overflow, and is monotone, for every parameter combination a parsed context can carry (Kani, full domain); get_proven_security is total (no overflow / underflow / panic) for arbitrary libm results; num_modulus_bits is the bit length of the claimed modulus; AcceptableOptions::validate consults the right estimate and rejects exactly below the minimum (contract relative to Proof::security_level); VerifierChannel::new refuses with InconsistentBaseField every proof whose claimed modulus (7, 8, 9 or 14 symbolic bytes) is not byte for byte the modulus of the base field of the computation.',
-    level_note='Not decided: the numeric value and monotonicity of get_proven_security (f64 log2/powf/sqrt have no faithful model in CBMC; they are stubbed to arbitrary floats); the OptionSet arm of validate.',
+    level_note='Not decided: the numeric value and monotonicity of get_proven_security (f64 log2/powf/sqrt have no faithful model in CBMC; they are stubbed to arbitrary floats); the OptionSet arm of validate is exercised by the stand-in verifier_side_native only (iterator / closure body).',
     explanation=MIX)
 PROPS["C19"] = dict(
     level="other", claimed=True, verus=True,
